@@ -11,7 +11,7 @@ offsets from `begin()`.  The comparator is a parameter `lt : α → α → Bool`
 Every element read goes through `rd`, every element write through `wr` (both checked), so an
 access outside `[begin,end)` is `.error .oob`; a violated `TETL_PRECONDITION` of `static_vector`
 is `.error (.pre _)`.  Each definition follows the statement structure of the C++ member of the
-same name *as it is after the `fix:` commits of branch fix-c09* (see known_findings.d/C09.json).
+same name *as it is after the `fix:` commits of branches fix-c09 and fix-c09b* (see known_findings.d/C09.json).
 -/
 import Tetl.Common
 import Tetl.C06.Model.Sort
